@@ -225,6 +225,10 @@ pub struct HybCfg {
     /// while more than this is queued; with a small value a leak in the accounting shows after a few entries.
     #[serde(default)]
     pub submit_threshold: usize,
+    /// Use foyer's own `PsyncIoEngine` (pread/pwrite inside `spawn_blocking` tasks, which the explorer
+    /// schedules like any other task) instead of the sim IO engine. No IO log, no fault injection.
+    #[serde(default)]
+    pub psync: bool,
 }
 
 impl HybCfg {
@@ -252,6 +256,7 @@ impl HybCfg {
             noop_storage: false,
             device_capacity: 0,
             submit_threshold: 0,
+            psync: false,
         }
     }
 
@@ -268,7 +273,8 @@ impl HybCfg {
 
     pub fn name(&self) -> String {
         format!(
-            "{}{}{}{}{} mem={}x{} comp={} blocks={}x{}K fl={}",
+            "{}{}{}{}{}{} mem={}x{} comp={} blocks={}x{}K fl={}",
+            if self.psync { "psync-" } else { "" },
             if self.noop_storage { "memonly-" } else { "" },
             if self.woi { "woi" } else { "woe" },
             if self.tombstone { "+tomb" } else { "" },
@@ -749,7 +755,11 @@ impl World {
                     1
                 })
                 .storage()
-                .with_io_engine_config(Box::new(SimIoConfig { io }) as Box<dyn foyer::IoEngineConfig>);
+                .with_io_engine_config(if cfg.psync {
+                    foyer::PsyncIoEngineConfig::new().into()
+                } else {
+                    Box::new(SimIoConfig { io }) as Box<dyn foyer::IoEngineConfig>
+                });
             let builder = if cfg.noop_storage {
                 builder
             } else {
